@@ -45,7 +45,7 @@ TT = 'chainables.tree'
 
 
 def run(ctx: Ctx):
-  for r in (r1, r2, r3, r4, r5, r6, r8, r9, r10, r13, r17, r18, r19, r20, r21, r22):
+  for r in (r1, r2, r3, r4, r5, r6, r8, r9, r10, r13, r17, r23, r18, r19, r20, r21, r22):
     ctx.guard(r)
   from mlmverif.props import c03
   ctx.include('R-C02-7', 'every sliced aggregate sees every slice: the slices of'
@@ -1079,11 +1079,64 @@ def r22(ctx: Ctx):
   ctx.floor(rule, 3, n)
 
 
+def r23(ctx: Ctx):
+  rule = 'R-C02-23'
+  ctx.rule(rule, '"for every slice key it reports exactly the aggregate over the rows belonging to that slice", batch after batch:'
+           ' the row-to-mask functions a Slicer builds are functions of the CURRENT batch only. The nested functions of'
+           ' Slicer.new keep no state between calls: they neither write into a container of the enclosing scope'
+           ' (`<free name>[k] = ...`, `.update(...)`, `.append(...)`, `.setdefault(...)`) nor re-bind an enclosing name'
+           ' (`nonlocal`). Masks remembered for "the same columns" (compared by identity) are replayed for a later batch'
+           ' when the source refills its arrays in place: rows land in the wrong slices, new slices are never reported')
+  ci = ctx.repo.cls(TF, 'Slicer')
+  new = ci.methods.get('new')
+  if new is None:
+    raise AnalysisError(f'{rule}: Slicer.new not found')
+  n = 0
+  for f_in in ast.walk(new.node):
+    if not isinstance(f_in, ast.FunctionDef) or f_in is new.node:
+      continue
+    n += 1
+    a = f_in.args
+    own = {x.arg for x in a.posonlyargs + a.args + a.kwonlyargs} | {x.arg for x in (a.vararg, a.kwarg) if x}
+    for x in ast.walk(f_in):
+      if isinstance(x, (ast.Assign, ast.AnnAssign, ast.AugAssign)):
+        for t in (x.targets if isinstance(x, ast.Assign) else [x.target]):
+          for y in ast.walk(t):
+            if isinstance(y, ast.Name) and isinstance(y.ctx, ast.Store):
+              own.add(y.id)
+      if isinstance(x, (ast.For, ast.comprehension)):
+        own |= {y.id for y in ast.walk(x.target) if isinstance(y, ast.Name)}
+      if isinstance(x, ast.NamedExpr):
+        own.add(x.target.id)
+    bad = None
+    for x in ast.walk(f_in):
+      if isinstance(x, ast.Nonlocal):
+        bad = x
+      if isinstance(x, (ast.Assign, ast.AugAssign)):
+        for t in (x.targets if isinstance(x, ast.Assign) else [x.target]):
+          if isinstance(t, ast.Subscript) and isinstance(t.value, ast.Name) and t.value.id not in own:
+            bad = x
+      if isinstance(x, ast.Call) and isinstance(x.func, ast.Attribute) and x.func.attr in ('update', 'append', 'extend', 'setdefault', 'add',
+                                                                                            'insert', 'pop', 'clear') \
+          and isinstance(x.func.value, ast.Name) and x.func.value.id not in own:
+        bad = x
+    what = f'Slicer.new.{f_in.name}: no state is kept between two batches'
+    if bad is not None:
+      ctx.fail(rule, new, what,
+               f'`{unparse(bad)[:70]}` in {f_in.name} writes into the enclosing scope: what one batch computed is available to the next —'
+               ' masks of an earlier batch can be replayed for a later one', node=bad)
+    else:
+      ctx.ok(rule, new, what, f_in)
+  ctx.floor(rule, 2, n)
+
+
 from mlmverif.selfcheck import B, OK  # noqa: E402
 
 _T = 'chainables/transform.py'
 _F = 'chainables/tree_fns.py'
 VARIANTS = [
+    B('slicer-remembers-the-masks-of-the-last-batch', 'chainables/tree_fns.py',
+      "    def _slice_mask_fn(*inputs):\n", "    last_batch = {}\n\n    def _slice_mask_fn(*inputs):\n      last_batch.update(inputs=inputs)\n", 'R-C02-23'),
     OK('filter-marker-compared-the-other-way-round', 'chainables/tree.py',
        "        if replace_false_with != DEFAULT_FILTER:\n          result.append(replace_false_with)", "        if not (replace_false_with == DEFAULT_FILTER):\n          result.append(replace_false_with)"),
     B('filter-marker-compared-by-identity', 'chainables/tree.py',
